@@ -1649,7 +1649,7 @@ fn run(opts: &Opts, acc: &mut Acc) {
     );
 
     // random
-    let n = opts.tier.pick(24_000, 1_000_000);
+    let n = opts.tier.pick(100_000, 4_000_000);
     random_genomes(acc, opts, "random", n, 160, |gn, a| check_random(gn, a));
     dedupe_samples(acc);
 }
